@@ -4,7 +4,12 @@ import RreModel.C20.Spec
 Driver for C20.
   case := `<B> <maxCk> <ttl> <op,op,...>`   B ∈ F|M ; ttl ∈ N|<ms> ;
           op ∈ P<k>.<v> | T<k>.<v>.<ttl> | U<k>.<v> | D<k> | X | G | C | R<i> | A<ms> | K (crash analysis, last)
+          B = Q (real kill): exactly one kill op  Y<p> (checkpoint killed at its numbered crash point p)
+          | V<i>.<p> (restore of id #i killed at point p); the ops before it run in a child process that is really
+          killed there, the ops after it on a NEW store opened on the directory the dead child left (`Model.reopen`)
   obs  := step;step;…   step := res/gets/keys/len/metas/files[/crash]      (see harness/src/bin/c20.rs)
+          kill step := dead@<label>|exit / files / id>ok=<view>|id><kind>=u|c,…   predicted from `Model.checkpointSteps`,
+          `restoreSteps`, `diesAt`, `pointLabel`, `crashAt`/`crashDir` — the definitions Theorems2.lean is about
   drv_c20 model   : case        ↦ observation line predicted by the model (codec = `natCodec`)
   drv_c20 oracle  : case | obs  ↦ `ok <tags>` / `fail <clause>@<step>` (Spec.runOk on the observations)
 -/
@@ -15,10 +20,14 @@ inductive COp where
   | checkpoint | crash | restore (i : Nat) | advance (d : Nat)
   | failCk                 -- `Z`: checkpoint whose `File::create` fails (real I/O error injected by the harness)
   | event (k v : Nat)      -- `E<k>.<v>`: `StatefulOperator::process` with a process function that puts v under k
+  | kill (p : Nat)         -- `Y<p>` (kind Q): `checkpoint` in a child process that is KILLED at its crash point p
+  | killRestore (i p : Nat) -- `V<i>.<p>` (kind Q): `restore` of the i-th id in a child process killed at its crash point p
 deriving Repr
 
 structure Case where
   oper : Bool := false     -- `O`: the file backend driven through `StatefulOperator` (a delegating wrapper: same model)
+  real : Bool := false     -- `Q`: file backend; the ops up to the single `Y`/`V` run in a child process that is really
+                           --      killed there, the ops after it on a NEW store opened on the directory it left
   file : Bool
   maxCk : Nat
   ttl : Option Nat
@@ -40,13 +49,15 @@ def parseOp (s : String) : Option COp :=
   | "Z", some [] => some .failCk
   | "E", some [k, v] => some (.event k v)
   | "R", some [i] => some (.restore i)
+  | "Y", some [p] => some (.kill p)
+  | "V", some [i, p] => some (.killRestore i p)
   | "A", some [d] => some (.advance d)
   | _, _ => none
 
 def parseCase (line : String) : Option Case :=
   match tokens line with
   | [b, m, t, ops] => do
-    let file ← (if b = "F" || b = "O" then some true else if b = "M" then some false else none)
+    let file ← (if b = "F" || b = "O" || b = "Q" then some true else if b = "M" then some false else none)
     let maxCk ← m.toNat?
     let ttl ← (if t = "N" then some none else t.toNat?.map some)
     let ops ← (if ops = "-" then some [] else (ops.splitOn ",").mapM parseOp)
@@ -56,7 +67,12 @@ def parseCase (line : String) : Option Case :=
       | .crash :: _ => [.crash]
       | o :: r => o :: cut r
     if !file && ops.any (fun o => match o with | .failCk => true | _ => false) then none else
-    pure { oper := b = "O", file := file, maxCk := maxCk, ttl := ttl, ops := cut ops }
+    let isKill := fun (o : COp) => match o with | .kill _ | .killRestore .. => true | _ => false
+    let special := fun (o : COp) => match o with | .crash | .failCk | .event .. => true | _ => false
+    -- kind Q: exactly one kill op, no analysis / injection ops; the other kinds: no kill op
+    if b = "Q" && ((ops.filter isKill).length != 1 || ops.any special) then none else
+    if b != "Q" && ops.any isKill then none else
+    pure { oper := b = "O", real := b = "Q", file := file, maxCk := maxCk, ttl := ttl, ops := cut ops }
   | _ => none
 
 /-! rendering -/
@@ -174,9 +190,37 @@ def toOp (ids : List Id) : COp → Op
   | .advance d => .advance d
   | .event k v => .put k v
   | .failCk => .advance 0      -- not used: `modelSteps` handles `failCk` itself
+  | .kill _ => .advance 0      -- not used: `modelSteps` handles the kill ops itself
+  | .killRestore .. => .advance 0
+
+def showDir (F : List (Id × Option (List Nat))) : String :=
+  listOr ((sortBy (fun a b => idLt a.1 b.1) F).map fun (i, c) => s!"{showId i}={showFile (fileObs c)}")
+
+/-- after the restart: a NEW store holding the sentinel entries {0 ↦ 1, 2 ↦ 3} restores id `i` from directory `F` -/
+def probeLine (cfg : Cfg) (F : List (Id × Option (List Nat))) (clock : Nat) (i : Id) : String :=
+  let sentinel : List (Nat × Entry) := [(0, ⟨1, clock, none⟩), (2, ⟨3, clock, none⟩)]
+  let r := restore natCodec cfg { reopen F clock with store := sentinel } i
+  showId i ++ ">" ++ match r.2 with
+    | .ok => s!"ok={showView (sortedView (live r.1.store r.1.clock))}"
+    | o => s!"{match outRes o with | .err k => k | _ => "?"}={if r.1.store == sentinel then "u" else "c"}"
+
+/-- what the parent finds after the child was armed to die at crash point `p` of a procedure with these steps -/
+def killLine (cfg : Cfg) (steps : List PStep) (F : List (Id × Option (List Nat))) (clock p : Nat) (ids : List Id) : String :=
+  (if diesAt steps p then s!"dead@{pointLabel steps p}" else "exit") ++ "/" ++ showDir F ++ "/"
+    ++ listOr (ids.map (probeLine cfg F clock))
 
 def modelSteps (cfg : Cfg) : World → List Id → List COp → List String
   | _, _, [] => []
+  | W, ids, .kill p :: ops =>
+    -- `Model.checkpointSteps` numbers the crash points; `Model.crashAt` is the directory the dead child leaves;
+    -- the ops that follow run on `Model.reopen` of that directory (same clock reading: the parent's injected clock)
+    let F := crashAt natCodec cfg W p
+    let ids' := ids ++ [newId cfg W]
+    killLine cfg (checkpointSteps natCodec cfg W) F W.clock p ids' :: modelSteps cfg (reopen F W.clock) ids' ops
+  | W, ids, .killRestore n p :: ops =>
+    let steps := restoreSteps natCodec cfg W ((ids[n]?).getD bogusId)
+    let F := crashDir steps W.fs p
+    killLine cfg steps F W.clock p ids :: modelSteps cfg (reopen F W.clock) ids ops
   | W, ids, .failCk :: ops =>
     -- `checkpoint` returns Err("Failed to create checkpoint file …") after consuming the id and creating its directory
     let W' := checkpointFailsAtCreate cfg W
@@ -228,6 +272,31 @@ def parseCrashEntry (s : String) : Option CrashObs :=
     | _ => none
   | _ => none
 
+def parseProbe (s : String) : Option ProbeObs :=
+  match s.splitOn ">" with
+  | [i, r] =>
+    match r.splitOn "=" with
+    | ["ok", v] => (parseView v).map fun v => { id := i, restored := some v, unchanged := false }
+    | [_, u] => some { id := i, restored := none, unchanged := u = "u" }
+    | _ => none
+  | _ => none
+
+def parseFiles (files : String) : Option (List (String × FileObs)) :=
+  parseList files fun f => match f.splitOn "=" with
+    | [i, c] => (parseFile c).map fun c => (i, c)
+    | _ => none
+
+/-- `dead@<label>/<files>/<probes>` | `exit/<files>/<probes>` -/
+def parseKill (s : String) : Option (KillObs × String) :=
+  match s.splitOn "/" with
+  | [h, files, probes] => do
+    let files ← parseFiles files
+    let probes ← parseList probes parseProbe
+    if h = "exit" then pure ({ dead := false, files := files, probes := probes }, "exit")
+    else if h.startsWith "dead@" then pure ({ dead := true, files := files, probes := probes }, (h.drop 5).toString)
+    else none
+  | _ => none
+
 def parseObs (s : String) : Option Obs :=
   let fs := s.splitOn "/"
   match fs with
@@ -266,6 +335,49 @@ def toOOps : List String → List COp → List Obs → List OOp
 
 def countP {α : Type} (p : α → Bool) (xs : List α) : Nat := (xs.filter p).length
 
+def isKillOp : COp → Bool
+  | .kill _ | .killRestore .. => true
+  | _ => false
+
+/-- kind Q: the child's calls (Spec.runOk), the verdict on what the dead child left (Spec.killOk), the reopened store's
+calls (Spec.runOk2) -/
+def oracleReal (cs : Case) (o : String) : String :=
+  let parts := o.splitOn ";"
+  let ops1 := cs.ops.takeWhile (fun op => !isKillOp op)
+  let rest := cs.ops.dropWhile (fun op => !isKillOp op)
+  match rest, (parts.take ops1.length).mapM parseObs, (parts.drop ops1.length) with
+  | kop :: ops2, some os1, ks :: ps2 =>
+    match parseKill ks, ps2.mapM parseObs with
+    | some (k, label), some os2 =>
+      let oops1 := toOOps [] ops1 os1
+      match runOk true cs.maxCk 0 {} oops1 os1 with
+      | .error (n, e) => s!"fail {e}@{n}"
+      | .ok r =>
+        let isCk := match kop with | .kill _ => true | _ => false
+        match killOk cs.maxCk r isCk k with
+        | .error e => s!"fail {e}@{ops1.length}"
+        | .ok old =>
+          -- `R<i>` after the restart: ids of the earlier life first (the interrupted one included), then the new ones
+          let oops2 := toOOps old.ids ops2 os2
+          match runOk2 cs.maxCk old (ops1.length + 1) {} oops2 os2 with
+          | .error (n, e) => s!"fail {e}@{n}"
+          | .ok r2 =>
+            let extra := k.probes.filter fun p => !(r.taken.any (·.1 == p.id))
+            let tags := ["file", "real_kill", if isCk then "kill_in_checkpoint" else "kill_in_restore",
+                "kill_at_" ++ label]
+              ++ (if isCk && extra.any (fun p => p.restored.isSome) then ["interrupted_complete"] else [])
+              ++ (if isCk && k.dead && extra.any (fun p => p.restored.isNone) then ["interrupted_error"] else [])
+              ++ (if !r.taken.isEmpty then ["earlier_checkpoints_probed"] else [])
+              ++ (if r.taken.any (fun t => (findProbe k.probes t.1).any (·.restored.isNone) && r.prev.metas.any (·.1 == t.1))
+                  then ["retention_victim_gone"] else [])
+              ++ (if !r2.taken.isEmpty then ["reopened_checkpoints"] else [])
+              ++ (if (oops2.zip os2).any (fun (p : OOp × Obs) => match p.1, p.2.res with
+                    | .restore i, .ok => old.ids.contains i | _, _ => false) then ["reopened_restores_earlier_life"] else [])
+              ++ ["nontrivial"]
+            joinSp ("ok" :: tags)
+    | _, _ => "fail unparsable_observation"
+  | _, _, _ => "fail unparsable_observation"
+
 def oracleLine (line : String) : String :=
   match line.splitOn " | " with
   | [c, o] =>
@@ -273,6 +385,7 @@ def oracleLine (line : String) : String :=
     | none => "bad-input"
     | some cs =>
       let o := o.trimAscii.toString
+      if cs.real then oracleReal cs o else
       let obs : Option (List Obs) := if o = "-" then some [] else (o.splitOn ";").mapM parseObs
       match obs with
       | none => "fail unparsable_observation"
